@@ -11,6 +11,7 @@ package c19
 import (
 	"encoding/json"
 	"fmt"
+	"runtime"
 	"strings"
 	"sync"
 
@@ -361,9 +362,9 @@ func run(c *core.Ctx) {
 // stress is the free-running cross-check: the same operations and pipelines on real goroutines
 // without the scheduler (the shim passes lock operations through), under the race detector.
 func stress(c *core.Ctx) {
-	rounds := 40
+	rounds := 60
 	if c.Tier == "thorough" {
-		rounds = 400
+		rounds = 600
 	}
 	for r := 0; r < rounds && !c.Expired(); r++ {
 		caseNo, run := c.Begin()
@@ -387,10 +388,23 @@ func stress(c *core.Ctx) {
 const stressG = 8
 
 func stressRound(r int) string {
+	// Real parallelism: the scheduler-driven exploration serialises goroutines, and incidental
+	// synchronisation in the Go runtime and standard library (sync.Pool reuse inside fmt, for one)
+	// then orders their accesses and hides races between code that runs far apart; on several Ps
+	// the pools are per-P and the detector sees the accesses unordered.
+	runtime.GOMAXPROCS(8)
 	before := len(core.RaceLog())
 	ms := newSet()
 	results := make([]string, stressG)
 	picked := make([]int, stressG)
+	want := make([]string, stressG)
+	for g := 0; g < stressG/2; g++ { // sequential references of the pipelines, computed up front
+		if _, ok := pipelineWant[g]; !ok {
+			pipelineWant[g] = dump.Run(schema(fmt.Sprint("t", g)), dump.Options{Positions: true}).Summary()
+		}
+		want[g] = pipelineWant[g]
+	}
+	start := make(chan struct{})
 	var wg sync.WaitGroup
 	for g := 0; g < stressG; g++ {
 		g := g
@@ -398,8 +412,11 @@ func stressRound(r int) string {
 		wg.Add(1)
 		go func() {
 			defer wg.Done()
-			if g == stressG-1 { // one goroutine runs a pipeline of its own instead
-				results[g] = dump.Run(schema("t0"), dump.Options{Positions: true}).Summary()
+			<-start
+			if g < stressG/2 { // independent pipelines, each on its own module set
+				if pan, pt := core.Guard(func() { results[g] = dump.Run(schema(fmt.Sprint("t", g)), dump.Options{Positions: true}).Summary() }); pan {
+					results[g] = "PANIC: " + pt
+				}
 				return
 			}
 			if pan, pt := core.Guard(func() { results[g] = ops[picked[g]].f(ms) }); pan {
@@ -407,11 +424,18 @@ func stressRound(r int) string {
 			}
 		}()
 	}
+	close(start)
 	wg.Wait()
 	problem := ""
-	for g := 0; g < stressG-1; g++ {
-		if want := sequential(picked[g]); results[g] != want {
-			problem = fmt.Sprintf("free-running goroutine %d, %s: got %q, sequential run gives %q", g, ops[picked[g]].name, results[g], want)
+	for g := 0; g < stressG; g++ {
+		if g < stressG/2 {
+			if results[g] != want[g] {
+				problem = fmt.Sprintf("free-running pipeline %d differs from its sequential run:\n%s\n--- sequential:\n%s", g, results[g], want[g])
+			}
+			continue
+		}
+		if w := sequential(picked[g]); results[g] != w {
+			problem = fmt.Sprintf("free-running goroutine %d, %s: got %q, sequential run gives %q", g, ops[picked[g]].name, results[g], w)
 		}
 	}
 	if log := core.RaceLog(); len(log) > before {
